@@ -1017,3 +1017,98 @@ func KeywordPosition(p *core.Prog, r *core.Report) {
 	r.Count("keyword_positions", n)
 	r.Floor("keyword_positions", 40)
 }
+
+// HelperField — HELPER-FIELD: a constraint helper is applied to the value of its own keyword. Inside the validators,
+// every call of an exported constraint helper (MinLength, MaxItems, MaximumNativeType …) takes its bound — and its
+// exclusivity flag — from the validator fields of that very keyword: MaxLength(…, *s.MinLength) compiles, and the
+// guard `s.MinLength != nil` in front of it still satisfies KEYWORD-GUARD.
+func HelperField(p *core.Prog, r *core.Report) {
+	const rule = "HELPER-FIELD"
+	// helper-name prefix -> fields it may be given (exact field names of the keyword family)
+	family := []struct {
+		prefix string
+		fields []string
+	}{
+		{"MinLength", []string{"MinLength"}}, {"MaxLength", []string{"MaxLength"}}, {"Pattern", []string{"Pattern"}},
+		{"MinItems", []string{"MinItems"}}, {"MaxItems", []string{"MaxItems"}},
+		{"Maximum", []string{"Maximum", "ExclusiveMaximum"}}, {"Minimum", []string{"Minimum", "ExclusiveMinimum"}},
+		{"MultipleOf", []string{"MultipleOf"}},
+	}
+	keywordField := map[string]bool{}
+	for _, k := range schemaKeywords {
+		keywordField[k] = true
+	}
+	n := 0
+	seq := map[string]int{}
+	for _, f := range p.Funcs {
+		if !p.InSubject(f) || f.Signature.Recv() == nil {
+			continue
+		}
+		fn := core.FuncName(f)
+		core.EachInstr(f, func(i ssa.Instruction) {
+			c, ok := i.(*ssa.Call)
+			if !ok {
+				return
+			}
+			g := core.StaticCallee(c)
+			if g == nil || !p.InSubject(g) || g.Signature.Recv() != nil || g.Object() == nil || !g.Object().Exported() {
+				return
+			}
+			var allowed []string
+			for _, fam := range family {
+				if strings.HasPrefix(g.Name(), fam.prefix) {
+					allowed = fam.fields
+				}
+			}
+			if allowed == nil {
+				return
+			}
+			// keyword fields of the receiver among the arguments
+			var used []string
+			for _, a := range c.Call.Args {
+				v := a
+				for d := 0; d < 3; d++ {
+					if u, ok := v.(*ssa.UnOp); ok && u.Op == token.MUL {
+						v = u.X
+						continue
+					}
+					break
+				}
+				if fa, ok := v.(*ssa.FieldAddr); ok {
+					if _, name, _ := core.FieldOf(fa); keywordField[name] {
+						used = append(used, name)
+					}
+				}
+			}
+			if len(used) == 0 {
+				return
+			}
+			n++
+			base := fn + ":" + g.Name()
+			seq[base]++
+			key := base
+			if seq[base] > 1 {
+				key = fmt.Sprintf("%s#%d", base, seq[base])
+			}
+			var foreign []string
+			for _, u := range used {
+				ok := false
+				for _, a := range allowed {
+					if a == u {
+						ok = true
+					}
+				}
+				if !ok {
+					foreign = append(foreign, u)
+				}
+			}
+			if len(foreign) > 0 {
+				r.Bad(rule, key, p.Pos(c.Pos()), fmt.Sprintf("%s is applied to the value of another keyword (%s): the instance is checked against the wrong bound", g.Name(), strings.Join(foreign, ", ")))
+			} else {
+				r.OK(rule, key, p.Pos(c.Pos()), g.Name()+" takes its bound from "+strings.Join(used, ", "))
+			}
+		})
+	}
+	r.Count("helper_field_sites", n)
+	r.Floor("helper_field_sites", 12)
+}
